@@ -83,19 +83,22 @@ class Decoder16b(Decoder):
     
     
         # Sort lower and upper bytes
-        dataMix = bytearray(width * h)
         w2 = w*2
         w1 = w
         w0 = 0
+        # BMP rows are padded to a multiple of 4 bytes
+        stride = (w2 + 3) // 4 * 4
+        dataMix = bytearray(stride * h)
         for y in range(0, h):
             yw2 = y*w2
+            ys = y*stride
             for x in range(0, w):
                 psu = yw2 + w1 + x
-                pdu = yw2 + x*2 + 0
+                pdu = ys + x*2 + 0
                 dataMix[pdu] = data[psu]  # Upper
                 
                 psl = yw2 + w0 + x
-                pdl = yw2 + x*2 + 1
+                pdl = ys + x*2 + 1
                 dataMix[pdl] = data[psl]  # Lower
         
         return dataMix
